@@ -192,6 +192,20 @@ CHECKS = {
               "folded layers are not generated (they do not build under the pinned Keras 3); SeparableConv and LeakyReLU conversions are "
               "known findings."),
         technique="Coq proof over an abstract-layer model of the rewriting + differential correspondence on generated Keras models"),
+    "C13": dict(
+        category="translation_validation",
+        text=("Two halves. (1) Proof, over tables regenerated from /repo on every run: every registered quantizer and every core quantized "
+              "layer / wrapper class is a key of the custom-object table (so reloading needs no user objects); every quantizer rebuilds from "
+              "its own configuration and emits every function-changing option; the generic configuration round-trip theorem for ALL option "
+              "values (Coq, vm_compute obligations). (2) Bit-identical predictions through Keras (de)serialisation and HDF5 cannot be "
+              "expressed in an executable Gallina model: that half is decided by running the three routes (JSON rebuild, clone_model, .h5 "
+              "save + load_qmodel without custom objects) on random quantized models over the runnable layer classes and a 15 x 13 quantizer "
+              "option set, comparing eager outputs bitwise and get_quantizers() strings. One genuine defect repaired (fix: commit)."),
+        design_ref="DESIGN.md section 5 C13, section 8, section 10",
+        note=(TB_COMMON + "The prediction-preservation half is translation validation (programs = models run, disagreements_checked = route runs). "
+              "HDF5, Keras deserialisation and eager execution are trusted runtime. Layers that do not build under the pinned Keras 3 "
+              "(QBatchNormalization, folded, recurrent wrappers) are not generated."),
+        technique="Coq obligations over translator-generated tables + differential round-trip runs (translation validation)"),
 }
 
 NOT_YET = "check not built yet in this development (design in DESIGN.md section 5); not a claim that proof is inapplicable"
